@@ -67,3 +67,27 @@ Proof.
   unfold bmove, rbind. destruct (bsub m k1 a) as [m1|e] eqn:E1; [|discriminate].
   intros Hn E2. eapply badd_nonneg; [eapply bsub_nonneg; eassumption|exact E2].
 Qed.
+
+(* ---- sums of balances selected by a predicate on the key --------------------------- *)
+From Fnd Require Import Base.Sum.
+Definition bsum (P : N * N * N -> bool) (m : bals) : Z := msum (fun k v => if P k then v else 0) m.
+
+Lemma bsum_bput P m k v : bsum P (bput m k v) = bsum P m - (if P k then bget m k else 0) + (if P k then v else 0).
+Proof.
+  unfold bsum, bput, bget. destruct (Z.eqb_spec v 0) as [->|Hv].
+  - rewrite msum_delete'. destruct (m !! k); destruct (P k); cbn; lia.
+  - rewrite msum_insert. destruct (m !! k); destruct (P k); cbn; lia.
+Qed.
+Lemma bsum_badd P m k a m' : badd m k a = Ok m' -> bsum P m' = bsum P m + (if P k then a else 0).
+Proof.
+  unfold badd. destruct (a <? 0); [discriminate|]. intros [= <-]. rewrite bsum_bput. destruct (P k); lia.
+Qed.
+Lemma bsum_bsub P m k a m' : bsub m k a = Ok m' -> bsum P m' = bsum P m - (if P k then a else 0).
+Proof.
+  unfold bsub. destruct (a <? 0); [discriminate|]. destruct (bget m k <? a); [discriminate|].
+  intros [= <-]. rewrite bsum_bput. destruct (P k); lia.
+Qed.
+Lemma bget_badd m k a m' k' : badd m k a = Ok m' -> bget m' k' = bget m k' + at_key k k' a.
+Proof. intros H. apply badd_spec in H as [_ H]. apply H. Qed.
+Lemma bget_bsub m k a m' k' : bsub m k a = Ok m' -> bget m' k' = bget m k' - at_key k k' a.
+Proof. intros H. apply bsub_spec in H as (_ & _ & H). apply H. Qed.
